@@ -169,6 +169,11 @@ func (h *H) FailWith(key, desc string, replay []string) {
 		}
 	}
 	h.Res.Failures = append(fs, Failure{Key: key, Desc: desc, Replay: replay})
+	// keep what was found so far on disk: the code under test may take the process down later
+	// (a fatal log entry, a panic in another goroutine), and the check then still sees this failure
+	if b, err := json.MarshalIndent(h.Res, "", " "); err == nil {
+		os.WriteFile(filepath.Join(h.Out, "partial.json"), b, 0o644)
+	}
 }
 
 func (h *H) Sample(s string) {
